@@ -159,6 +159,7 @@ class cache(dict):
     If key in keys is not found, d is returned if given, otherwise KeyError is raised."""
         if not hasattr(keys, '__iter__'):
             return self.pop(keys, *value)
+        keys = list(keys) # may be a one-shot iterable
         if len(value):
             return [self.pop(k, *value) for k in keys]
         memo = self.fromkeys(self.keys())
@@ -476,6 +477,7 @@ class dir_archive(archive):
     If key in keys is not found, d is returned if given, otherwise KeyError is raised."""
         if not hasattr(keys, '__iter__'):
             return self.pop(keys, *value)
+        keys = list(keys) # may be a one-shot iterable
         if len(value):
             return [self.pop(k, *value) for k in keys]
         memo = self._keydict() # 'shadow' dict for desired error behavior
@@ -892,6 +894,7 @@ class file_archive(archive):
     If key in keys is not found, d is returned if given, otherwise KeyError is raised."""
         if not hasattr(keys, '__iter__'):
             return self.pop(keys, *value)
+        keys = list(keys) # may be a one-shot iterable
         memo = self.__asdict__()
         res = [memo.pop(k, *value) for k in keys]
         self.__save__(memo)
@@ -1148,6 +1151,7 @@ if sql:
     If key in keys is not found, d is returned if given, otherwise KeyError is raised."""
           if not hasattr(keys, '__iter__'):
               return self.pop(keys, *value)
+          keys = list(keys) # may be a one-shot iterable
           if len(value):
               return [self.pop(k, *value) for k in keys]
           memo = self.fromkeys(self._keys()) # 'shadow' dict
@@ -1489,6 +1493,7 @@ if sql:
     If key in keys is not found, d is returned if given, otherwise KeyError is raised."""
           if not hasattr(keys, '__iter__'):
               return self.pop(keys, *value)
+          keys = list(keys) # may be a one-shot iterable
           if len(value):
               return [self.pop(k, *value) for k in keys]
           memo = self.fromkeys(self.keys()) # 'shadow' dict
@@ -1721,6 +1726,7 @@ else:
     If key in keys is not found, d is returned if given, otherwise KeyError is raised."""
           if not hasattr(keys, '__iter__'):
               return self.pop(keys, *value)
+          keys = list(keys) # may be a one-shot iterable
           if len(value):
               return [self.pop(k, *value) for k in keys]
           memo = self.fromkeys(self.keys()) # 'shadow' dict
@@ -2013,6 +2019,7 @@ if hdf:
     If key in keys is not found, d is returned if given, otherwise KeyError is raised."""
           if not hasattr(keys, '__iter__'):
               return self.pop(keys, *value)
+          keys = list(keys) # may be a one-shot iterable
           if len(value):
               return [self.pop(k, *value) for k in keys]
           memo = self.fromkeys(self.keys()) # 'shadow' dict
@@ -2205,6 +2212,7 @@ if hdf:
     If key in keys is not found, d is returned if given, otherwise KeyError is raised."""
           if not hasattr(keys, '__iter__'):
               return self.pop(keys, *value)
+          keys = list(keys) # may be a one-shot iterable
           if len(value):
               return [self.pop(k, *value) for k in keys]
           memo = self._keydict() # 'shadow' dict for desired error behavior
